@@ -368,6 +368,7 @@ func (r *Report) Finish(verifDir string, seed int64, t0 time.Time, c *Ctx, confi
 	distinct := map[string]bool{}
 	discharged := 0
 	byMeans := map[string]int{}
+	perRuleBy := map[string]map[string]int{}
 	for _, o := range r.Obs {
 		m := perRule[o.Rule]
 		if m == nil {
@@ -382,7 +383,14 @@ func (r *Report) Finish(verifDir string, seed int64, t0 time.Time, c *Ctx, confi
 			if i := strings.Index(by, ":"); i > 0 {
 				by = by[:i]
 			}
+			if j := strings.Index(by, " ("); j > 0 {
+				by = by[:j]
+			}
 			byMeans[by]++
+			if perRuleBy[o.Rule] == nil {
+				perRuleBy[o.Rule] = map[string]int{}
+			}
+			perRuleBy[o.Rule][by]++
 		}
 	}
 	samples := []Ob{}
@@ -399,23 +407,24 @@ func (r *Report) Finish(verifDir string, seed int64, t0 time.Time, c *Ctx, confi
 	}
 	sort.Strings(keys)
 	cov := map[string]interface{}{
-		"explanation":         r.Explain,
-		"obligations":         len(r.Obs),
-		"discharged":          discharged,
-		"evaluations":         len(r.Obs),
-		"distinct_nontrivial": len(distinct),
-		"rule":                "one evaluation = one static obligation (rule instance at a named construct of /repo's current source); distinct = distinct obligation keys rule|function|construct (line independent); all are non-trivial in the sense that each names a construct the rule had to resolve in the type-checked program",
-		"samples":             samples,
-		"per_rule":            perRule,
-		"discharged_by":       byMeans,
-		"floors":              r.floors,
-		"build_configs":       configs,
-		"known_findings":      len(printedKnown),
-		"obligation_keys":     keys,
-		"checker_cmd":         "/verif/bin/rarecheck -property " + r.Prop + " -tier " + r.Tier,
-		"trusted_base":        []string{"go/types", "go/ssa", "go/cfg", "VTA call graph (x/tools v0.29.0)", "Go compiler prove pass (bounds checks)", "standard library and third-party modules behave as documented", "frozen tables in /verif/checker (anchors, reviewed obligations) - one named construct and reason each"},
-		"exhaustive":          false,
-		"notes":               r.Notes,
+		"explanation":            r.Explain,
+		"obligations":            len(r.Obs),
+		"discharged":             discharged,
+		"evaluations":            len(r.Obs),
+		"distinct_nontrivial":    len(distinct),
+		"rule":                   "one evaluation = one static obligation (rule instance at a named construct of /repo's current source); distinct = distinct obligation keys rule|function|construct (line independent); all are non-trivial in the sense that each names a construct the rule had to resolve in the type-checked program",
+		"samples":                samples,
+		"per_rule":               perRule,
+		"per_rule_discharged_by": perRuleBy,
+		"discharged_by":          byMeans,
+		"floors":                 r.floors,
+		"build_configs":          configs,
+		"known_findings":         len(printedKnown),
+		"obligation_keys":        keys,
+		"checker_cmd":            "/verif/bin/rarecheck -property " + r.Prop + " -tier " + r.Tier,
+		"trusted_base":           []string{"go/types", "go/ssa", "go/cfg", "VTA call graph (x/tools v0.29.0)", "Go compiler prove pass (bounds checks)", "standard library and third-party modules behave as documented", "frozen tables in /verif/checker (anchors, reviewed obligations) - one named construct and reason each"},
+		"exhaustive":             false,
+		"notes":                  r.Notes,
 	}
 	if c != nil {
 		cov["packages"] = len(c.Pkgs)
